@@ -942,8 +942,8 @@ def _old_families():
 
 
 def _sub_general(seed, tier):
-    return (reenter_scenarios()[::4] + _old_families()[::4] +
-            [gen_scenario(random.Random(seed + 1 + i), tier, KINDS[i % 6]) for i in range(70)])
+    return (reenter_scenarios()[::5] + _old_families()[::5] +
+            [gen_scenario(random.Random(seed + 1 + i), tier, KINDS[i % 6]) for i in range(50)])
 
 
 # name -> (in-memory mutant, the scenarios it is run on)
@@ -1028,23 +1028,30 @@ def signature(t, clause, at, sc):
             site = 'refused:' + why.replace(' ', '-')
         return '%s/%s/%s' % (clause, '+'.join(kinds) or 'nofault', site)
     if clause in ('DeckNotNotified', 'DeckNotifiedTwice', 'DeckNoteMismatch'):
-        # which kind of deck client request, and which notification of the raw request went with it
-        reqs, notes, dn = {}, {}, {}
+        # which kind of deck client request, which notification of the raw request went with it, and
+        # what made the raw request fail (an error status of the device, or the loss of the link)
+        reqs, notes, dn, errs = {}, {}, {}, set()
         for e in t['ev']:
             if e['e'] == 'cs' and e['via'] == 'deck':
-                reqs[e['rid']] = ('query' if e['kind'] == 'read' and e['addr'] == 0 and e['len'] == 257 else e['kind'], e['m'], e['addr'])
+                reqs[e['rid']] = ('query' if e['kind'] == 'read' and e['addr'] == 0 and e['len'] == 257 else e['kind'],
+                                  e['m'], e['addr'], e['len'])
             elif e['e'] == 'dnote':
                 dn[e['rid']] = dn.get(e['rid'], 0) + 1
-        for e in t['ev']:
-            if e['e'] == 'note':
-                for rid, (kd, m, a) in reqs.items():
-                    if m == e['m'] and a == e['addr'] and kd[0] == ('w' if e['k'].startswith('write') else e['k'][0]) or \
-                            (kd == 'query' and m == e['m'] and a == e['addr'] and e['k'].startswith('read')):
-                        notes.setdefault(rid, e['k'])
+            elif e['e'] == 'up' and e['st'] != 0:
+                for rid, (kd, m, a, n) in reqs.items():
+                    if m == e['m'] and a <= e['addr'] <= a + n and (kd == 'write') == (e['k'] == 'w'):
+                        errs.add(rid)
+            elif e['e'] == 'note':
+                for rid, (kd, m, a, n) in reqs.items():
+                    if m == e['m'] and a == e['addr'] and (kd == 'write') == e['k'].startswith('write') and rid not in notes:
+                        notes[rid] = e['k']
+                        break
         want = (lambda r: dn.get(r, 0) == 0 and r in notes) if clause == 'DeckNotNotified' else \
             (lambda r: dn.get(r, 0) > 1) if clause == 'DeckNotifiedTwice' else (lambda r: True)
-        cls = sorted({'%s-%s' % (reqs[r][0], notes.get(r, '?')) for r in reqs if want(r)})
-        return '%s/%s/%s' % (clause, '+'.join(cls[:2]) or '?', '+'.join(kinds) or 'nofault')
+        cls = sorted({'%s-%s/%s' % (reqs[r][0], notes.get(r, '?'),
+                                    'ok' if notes.get(r, '').endswith('ok') else ('err' if r in errs else 'drop'))
+                      for r in reqs if want(r)})
+        return '%s/%s' % (clause, cls[0] if cls else '?')
     return '%s/%s' % (clause, '+'.join(kinds) or 'nofault')
 
 
@@ -1292,8 +1299,8 @@ def main(tier, seed, replay=None):
     # 3. code -> spec
     scs = systematic_scenarios()
     nsys = len(scs)
-    nrand = 800 if tier == 'quick' else 14000
-    ndeck = 200 if tier == 'quick' else 4000
+    nrand = 700 if tier == 'quick' else 12000
+    ndeck = 200 if tier == 'quick' else 3000
     for i in range(nrand):
         scs.append(gen_scenario(rng, tier, KINDS[i % len(KINDS)]))
     for i in range(ndeck):
@@ -1330,6 +1337,11 @@ def main(tier, seed, replay=None):
         out.sensitivity['mutant:' + name] = '%d of %d traces rejected beyond the known findings and the tree\'s own (%s)' % (
             len(mbad), len(mt), ','.join(sorted({c for (_t, c, _a) in mbad}))[:120])
         if not mbad:
+            if bad:
+                # the tree under test already violates the property in the same way: the self-test
+                # cannot tell the mutant from the tree, and must not turn the detection into exit 2
+                out.sensitivity['mutant:' + name] += ' -- not distinguishable from the violations of this tree'
+                continue
             raise common.MachineryError('monitor did not reject in-memory mutant %s' % name)
     import copy
     t0 = copy.deepcopy(next(t for t in traces if any(e['e'] == 'note' and e['k'] == 'read_ok' and e['data'] for e in t['ev'])))
